@@ -145,8 +145,11 @@ def jobs_C08(tier, scale):
 def graph_job(prop, executor, classes, tier, scale, quick, thorough, label, config="san", max_size=None, floor=50, **cfg):
     c = dict(prop=prop, classes=classes)
     c.update({k: str(v) for k, v in cfg.items()})
-    return dict(engine="pbt", executor=executor, config=config, gen="graph", cfg=c, cases=_n(tier, quick, thorough, scale, floor), shards=8 if tier == "quick" else 16,
-                max_size=max_size or (60 if tier == "quick" else 100), label=label)
+    job = dict(engine="pbt", executor=executor, config=config, gen="graph", cfg=c, cases=_n(tier, quick, thorough, scale, floor), shards=8 if tier == "quick" else 16,
+               max_size=max_size or (60 if tier == "quick" else 100), label=label)
+    if cfg.get("ring_pct") or cfg.get("big_pct") or "dense_auto" in str(cfg.get("extra", "")):
+        job["extra"] = dict(noshrink=1)  # single cases take seconds; a failing one is reported as generated
+    return job
 
 
 def jobs_C09(tier, scale):
